@@ -610,6 +610,16 @@ func (fox *Router) ServeHTTP(w http.ResponseWriter, r *http.Request) {
 				}
 			}
 		}
+		if sb.Len() == 0 && path == "*" {
+			// Routes registered under OPTIONS only: it is still a method that has routes.
+			if i := tree.root.methodIndex(http.MethodOptions); i >= 0 && len(tree.root[i].children) > 0 {
+				w.Header().Set(HeaderAllow, http.MethodOptions)
+				c.scope = OptionsHandler
+				fox.autoOptions(c)
+				tree.ctx.Put(c)
+				return
+			}
+		}
 		if sb.Len() > 0 {
 			sb.WriteString(", ")
 			sb.WriteString(http.MethodOptions)
